@@ -43,20 +43,6 @@ namespace Qx.C19
 @[simp] theorem Recv.checkData_fed (H : List UInt8 → List UInt8) (r : Recv) : (r.checkData H).fed = r.fed := by
   simp [Recv.fed]
 
-/-! `Recv.write` touches the device content and the hash input only -/
-@[simp] theorem Recv.write_state (r : Recv) (pl : List UInt8) : (r.write pl).state = r.state := by
-  unfold Recv.write; split <;> rfl
-@[simp] theorem Recv.write_error (r : Recv) (pl : List UInt8) : (r.write pl).error = r.error := by
-  unfold Recv.write; split <;> rfl
-@[simp] theorem Recv.write_size (r : Recv) (pl : List UInt8) : (r.write pl).size = r.size := by
-  unfold Recv.write; split <;> rfl
-@[simp] theorem Recv.write_hash (r : Recv) (pl : List UInt8) : (r.write pl).hash = r.hash := by
-  unfold Recv.write; split <;> rfl
-@[simp] theorem Recv.write_expected (r : Recv) (pl : List UInt8) : (r.write pl).expected = r.expected := by
-  unfold Recv.write; split <;> rfl
-@[simp] theorem Recv.write_dev (r : Recv) (pl : List UInt8) : (r.write pl).dev = r.dev := by
-  unfold Recv.write; split <;> rfl
-
 /-- a device never takes more than offered -/
 theorem Dev.accept_le (d : Dev) (held : Unit → Nat) (n w : Nat) (h : d.accept held n = some w) : w ≤ n := by
   cases d <;> simp only [Dev.accept] at h
@@ -65,24 +51,67 @@ theorem Dev.accept_le (d : Dev) (held : Unit → Nat) (n w : Nat) (h : d.accept 
   · simp at h; omega
   · split at h <;> simp at h; omega
 
-/-- what one `write()` does to the device content: a prefix of the block is appended -/
-theorem Recv.write_acc (r : Recv) (pl : List UInt8) : ∃ w, w ≤ pl.length ∧ (r.write pl).acc = r.acc ++ pl.take w := by
+/-! `Recv.write` touches the device content, the hash input and — on a short or failed write — ends the job -/
+@[simp] theorem Recv.write_size (r : Recv) (pl : List UInt8) : (r.write pl).size = r.size := by
+  unfold Recv.write; split <;> (try split) <;> simp
+@[simp] theorem Recv.write_hash (r : Recv) (pl : List UInt8) : (r.write pl).hash = r.hash := by
+  unfold Recv.write; split <;> (try split) <;> simp
+@[simp] theorem Recv.write_expected (r : Recv) (pl : List UInt8) : (r.write pl).expected = r.expected := by
+  unfold Recv.write; split <;> (try split) <;> simp
+@[simp] theorem Recv.write_dev (r : Recv) (pl : List UInt8) : (r.write pl).dev = r.dev := by
+  unfold Recv.write; split <;> (try split) <;> simp
+
+/-- the two things one `write()` can do: the device took the whole block (nothing else changes), or it did not —
+then a proper prefix of the block (possibly nothing) stays in the device, counter and hash do not move, and the job
+is ended with `FileAccessError` -/
+theorem Recv.write_cases (r : Recv) (pl : List UInt8) :
+    ((r.write pl).acc = r.acc ++ pl ∧ (r.write pl).fed = r.fed ++ pl ∧ (r.write pl).state = r.state ∧
+      (r.write pl).error = r.error) ∨
+    (∃ w, (w < pl.length ∨ w = 0) ∧ (r.write pl).acc = r.acc ++ pl.take w ∧ (r.write pl).fed = r.fed ∧
+      ∃ r0 : Recv, r0.state = r.state ∧ r0.error = r.error ∧ r.write pl = r0.terminate .access) := by
   unfold Recv.write
   split
-  · exact ⟨0, by omega, by simp⟩
+  · exact Or.inr ⟨0, Or.inr rfl, by simp, by simp, r, rfl, rfl, rfl⟩
   · rename_i w hw
-    exact ⟨w, Dev.accept_le _ _ _ _ hw, by simp [Recv.acc]⟩
+    have hle := Dev.accept_le _ _ _ _ hw
+    split
+    · rename_i hfull
+      exact Or.inl ⟨by simp [Recv.acc], by simp [Recv.fed], rfl, rfl⟩
+    · rename_i hshort
+      exact Or.inr ⟨w, Or.inl (by omega), by simp [Recv.acc], by simp [Recv.fed],
+        { r with accRev := (pl.take w).reverse ++ r.accRev }, rfl, rfl, rfl⟩
+
+/-- what one `write()` does to the device content: a prefix of the block is appended -/
+theorem Recv.write_acc (r : Recv) (pl : List UInt8) : ∃ w, w ≤ pl.length ∧ (r.write pl).acc = r.acc ++ pl.take w := by
+  rcases Recv.write_cases r pl with ⟨h, _⟩ | ⟨w, hw, h, _⟩
+  · exact ⟨pl.length, Nat.le_refl _, by rw [h, List.take_length]⟩
+  · exact ⟨w, by omega, h⟩
+
+/-- after a write the job is where it was, or it has just ended with `FileAccessError` -/
+theorem Recv.write_state_cases (r : Recv) (pl : List UInt8) (ht : r.state = .transfer) :
+    ((r.write pl).state = .transfer ∧ (r.write pl).error = r.error) ∨
+    ((r.write pl).state = .finished ∧ (r.write pl).error = .access) := by
+  rcases Recv.write_cases r pl with ⟨_, _, h1, h2⟩ | ⟨w, _, _, _, r0, e1, e2, e3⟩
+  · exact Or.inl ⟨by rw [h1, ht], h2⟩
+  · right
+    rw [e3]
+    unfold Recv.terminate
+    simp [e1, ht]
 
 theorem Recv.write_unlimited_eq (r : Recv) (pl : List UInt8) (h : r.dev = .unlimited) :
     r.write pl = { r with accRev := pl.reverse ++ r.accRev, fedRev := pl.reverse ++ r.fedRev } := by
   unfold Recv.write
-  simp only [h, Dev.accept, List.take_length]
+  simp only [h, Dev.accept, if_true]
 
 /-- a device that takes everything -/
 theorem Recv.write_unlimited (r : Recv) (pl : List UInt8) (h : r.dev = .unlimited) :
     (r.write pl).acc = r.acc ++ pl ∧ (r.write pl).fed = r.fed ++ pl := by
-  unfold Recv.write
-  simp [h, Dev.accept, Recv.acc, Recv.fed]
+  rw [Recv.write_unlimited_eq r pl h]
+  simp [Recv.acc, Recv.fed]
+
+@[simp] theorem Recv.write_unlimited_state (r : Recv) (pl : List UInt8) (h : r.dev = .unlimited) :
+    (r.write pl).state = r.state ∧ (r.write pl).error = r.error := by
+  rw [Recv.write_unlimited_eq r pl h]; exact ⟨rfl, rfl⟩
 
 /-- a job that failed the final check never reports success -/
 theorem Recv.checkData_fails_not_success (H : List UInt8 → List UInt8) (r : Recv)
@@ -112,7 +141,8 @@ theorem honest_add (a b : Nat) : honest (a + b) = honest a ++ honest b := by
 /-! ### an invariant of the receiving job alone survives every channel operation -/
 
 theorem step_r_inv (H : List UInt8 → List UInt8) (P : Recv → Prop)
-    (hP : ∀ r p, P r → P (recv H r p).1) (st : St) (op : Op) (h : P st.r) : P (step H st op).1.r := by
+    (hP : ∀ r p, P r → P (recv H r p).1) (hT : ∀ r, P r → P (r.terminate .protocol))
+    (st : St) (op : Op) (h : P st.r) : P (step H st op).1.r := by
   cases op <;> simp only [step, deliverStanza]
   case deliver => split <;> simp_all
   case drop => split <;> simp_all
@@ -129,12 +159,17 @@ theorem step_r_inv (H : List UInt8 → List UInt8) (P : Recv → Prop)
   case lose => exact h
   case injectReply => simp_all
   case peerClose => exact h
+  case timeout =>
+    split
+    · exact hT _ h
+    · exact h
 
 theorem run_r_inv (H : List UInt8 → List UInt8) (P : Recv → Prop)
-    (hP : ∀ r p, P r → P (recv H r p).1) (ops : List Op) (st : St) (h : P st.r) : P (run H st ops).1.r := by
+    (hP : ∀ r p, P r → P (recv H r p).1) (hT : ∀ r, P r → P (r.terminate .protocol))
+    (ops : List Op) (st : St) (h : P st.r) : P (run H st ops).1.r := by
   induction ops generalizing st with
   | nil => exact h
-  | cons op ops ih => exact ih _ (step_r_inv H P hP st op h)
+  | cons op ops ih => exact ih _ (step_r_inv H P hP hT st op h)
 
 /-- whenever the job is finished without error, the final check passed on what it holds now -/
 def Checked (H : List UInt8 → List UInt8) (r : Recv) : Prop :=
@@ -163,20 +198,30 @@ theorem recv_checked (H : List UInt8 → List UInt8) (r : Recv) (p : Stanza) (h 
       · split
         · exact h
         · rename_i hst _
-          intro hfin
           simp only [ne_eq, Decidable.not_not] at hst
-          simp [hst] at hfin
+          rcases Recv.write_state_cases { r with expected := r.expected + 1 } _ hst with ⟨h1, _⟩ | ⟨_, h2⟩
+          · intro hfin; rw [h1] at hfin; cases hfin
+          · intro _ he; rw [h2] at he; cases he
     · -- open
       split
       · exact h
       · intro hfin; simp at hfin
 
+@[simp] theorem Recv.terminate_acc' (r : Recv) (c : JError) : (r.terminate c).acc = r.acc := Recv.terminate_acc r c
+
+theorem terminate_checked (H : List UInt8 → List UInt8) (r : Recv) (c : JError) (hc : c ≠ .none) (h : Checked H r) :
+    Checked H (r.terminate c) := by
+  unfold Recv.terminate
+  split
+  · exact h
+  · intro _ he; exact absurd he hc
+
 theorem run_checked (H : List UInt8 → List UInt8) (ops : List Op) (st : St) (h : Checked H st.r) :
     Checked H (run H st ops).1.r :=
-  run_r_inv H (Checked H) (recv_checked H) ops st h
+  run_r_inv H (Checked H) (recv_checked H) (fun r h => terminate_checked H r _ (by decide) h) ops st h
 
 theorem checkFails_false_iff (H : List UInt8 → List UInt8) (r : Recv) :
-    r.checkFails H = false ↔ (r.size ≠ 0 → r.acc.length = r.size) ∧ (∀ h, r.hash = some h → H r.fed = h) := by
+    r.checkFails H = false ↔ (r.size ≠ 0 → r.fed.length = r.size) ∧ (∀ h, r.hash = some h → H r.fed = h) := by
   unfold Recv.checkFails
   cases hh : r.hash <;> simp <;> omega
 
@@ -207,7 +252,8 @@ variable (H : List UInt8 → List UInt8) {SP : Send → Prop} {RP : Recv → Pro
   (hR : ∀ r p, RP r → (G p ∨ Foreign p) → RP (recv H r p).1)
   (hS : ∀ s rep, SP s → SP (sender s rep).1 ∧ ∀ p, (sender s rep).2 = some p → G p)
   (hC : G { id := 0, sender := 0, sid := 0, kind := .close })
-include hR hS hC
+  (hRT : ∀ r, RP r → RP (r.terminate .protocol)) (hST : ∀ s, SP s → SP (s.terminate .protocol))
+include hR hS hC hRT hST
 
 theorem tri_toR (st : St) (p : Stanza) (h : Tri SP RP G st) (hp : G p ∨ Foreign p) : Tri SP RP G (toR H st p).1 :=
   ⟨h.s, hR _ _ h.r hp, h.p⟩
@@ -228,54 +274,64 @@ theorem tri_clear (st : St) (h : Tri SP RP G st) : Tri SP RP G { st with pending
 
 theorem tri_deliverStanza (st : St) (p : Stanza) (h : Tri SP RP G st) (hp : G p ∨ Foreign p) :
     Tri SP RP G (deliverStanza H st p).1 :=
-  tri_feed H hR hS hC _ _ (tri_toR H hR hS hC _ _ h hp)
+  tri_feed H hR hS hC hRT hST _ _ (tri_toR H hR hS hC hRT hST _ _ h hp)
 
 theorem tri_step (st : St) (op : Op) (hb : op.benign) (h : Tri SP RP G st) : Tri SP RP G (step H st op).1 := by
-  have clr := tri_clear H hR hS hC st h
+  have clr := tri_clear H hR hS hC hRT hST st h
   cases op <;> simp only [step]
   case deliver =>
     split
     · exact h
     · rename_i p hp
-      exact tri_deliverStanza H hR hS hC _ _ clr (Or.inl (h.p _ hp))
+      exact tri_deliverStanza H hR hS hC hRT hST _ _ clr (Or.inl (h.p _ hp))
   case drop =>
     split
     · exact h
-    · exact tri_feed H hR hS hC _ _ clr
+    · exact tri_feed H hR hS hC hRT hST _ _ clr
   case dup =>
     split
     · exact h
     · rename_i p hp
       have g := h.p _ hp
-      exact tri_feed H hR hS hC _ _ (tri_feed H hR hS hC _ _
-        (tri_toR H hR hS hC _ _ (tri_toR H hR hS hC _ _ clr (Or.inl g)) (Or.inl g)))
+      exact tri_feed H hR hS hC hRT hST _ _ (tri_feed H hR hS hC hRT hST _ _
+        (tri_toR H hR hS hC hRT hST _ _ (tri_toR H hR hS hC hRT hST _ _ clr (Or.inl g)) (Or.inl g)))
   case swap =>
     split
     · exact h
     · rename_i p hp
       have g := h.p _ hp
-      have h1 := tri_feed H hR hS hC _ (ack p) clr
+      have h1 := tri_feed H hR hS hC hRT hST _ (ack p) clr
       split
-      · exact tri_deliverStanza H hR hS hC _ _ h1 (Or.inl g)
+      · exact tri_deliverStanza H hR hS hC hRT hST _ _ h1 (Or.inl g)
       · rename_i q hq
         have gq := h1.p _ hq
-        have h2 := tri_clear H hR hS hC _ h1
-        exact tri_feed H hR hS hC _ _ (tri_feed H hR hS hC _ _
-          (tri_toR H hR hS hC _ _ (tri_toR H hR hS hC _ _ h2 (Or.inl gq)) (Or.inl g)))
+        have h2 := tri_clear H hR hS hC hRT hST _ h1
+        exact tri_feed H hR hS hC hRT hST _ _ (tri_feed H hR hS hC hRT hST _ _
+          (tri_toR H hR hS hC hRT hST _ _ (tri_toR H hR hS hC hRT hST _ _ h2 (Or.inl gq)) (Or.inl g)))
   case flip => exact absurd hb (by simp [Op.benign])
-  case earlyClose => exact tri_deliverStanza H hR hS hC _ _ h (Or.inl hC)
+  case earlyClose => exact tri_deliverStanza H hR hS hC hRT hST _ _ h (Or.inl hC)
   case wrongSid =>
     split
     · exact h
-    · exact tri_deliverStanza H hR hS hC _ _ clr (Or.inr (Or.inr (by simp)))
+    · exact tri_deliverStanza H hR hS hC hRT hST _ _ clr (Or.inr (Or.inr (by simp)))
   case wrongSender =>
     split
     · exact h
-    · exact tri_deliverStanza H hR hS hC _ _ clr (Or.inr (Or.inl (by simp)))
-  case inject a b k => exact tri_deliverStanza H hR hS hC _ _ h (Or.inr hb)
+    · exact tri_deliverStanza H hR hS hC hRT hST _ _ clr (Or.inr (Or.inl (by simp)))
+  case inject a b k => exact tri_deliverStanza H hR hS hC hRT hST _ _ h (Or.inr hb)
   case lose => exact clr
-  case injectReply => exact tri_feed H hR hS hC _ _ h
+  case injectReply => exact tri_feed H hR hS hC hRT hST _ _ h
   case peerClose => exact h
+  case timeout =>
+    refine ⟨?_, ?_, h.p⟩
+    · show SP (if st.s.state = .transfer then st.s.terminate .protocol else st.s)
+      split
+      · exact hST _ h.s
+      · exact h.s
+    · show RP (if st.r.state = .transfer then st.r.terminate .protocol else st.r)
+      split
+      · exact hRT _ h.r
+      · exact h.r
 
 theorem tri_run (ops : List Op) (st : St) (hb : ∀ op ∈ ops, op.benign) (h : Tri SP RP G st) :
     Tri SP RP G (run H st ops).1 := by
@@ -283,7 +339,7 @@ theorem tri_run (ops : List Op) (st : St) (hb : ∀ op ∈ ops, op.benign) (h : 
   | nil => exact h
   | cons op ops ih =>
     exact ih _ (fun o ho => hb o (List.mem_cons_of_mem _ ho))
-      (tri_step H hR hS hC st op (hb op List.mem_cons_self) h)
+      (tri_step H hR hS hC hRT hST st op (hb op List.mem_cons_self) h)
 
 end generic
 
@@ -295,32 +351,22 @@ namespace Qx.C19
 
 /-! ### device content versus hash input -/
 
-theorem Recv.write_cases (r : Recv) (pl : List UInt8) :
-    ((r.write pl).acc = r.acc ∧ (r.write pl).fed = r.fed) ∨
-    ∃ w, w ≤ pl.length ∧ (r.write pl).acc = r.acc ++ pl.take w ∧ (r.write pl).fed = r.fed ++ pl := by
-  unfold Recv.write
-  split
-  · exact Or.inl ⟨rfl, rfl⟩
-  · rename_i w hw
-    exact Or.inr ⟨w, Dev.accept_le _ _ _ _ hw, by simp [Recv.acc], by simp [Recv.fed]⟩
-
-/-- what the device holds is exactly what the running hash has seen — or strictly fewer bytes (after a short write) -/
-def AF (r : Recv) : Prop := r.acc = r.fed ∨ r.acc.length < r.fed.length
+/-- what the device holds is exactly what counter and hash have seen — or strictly more (the part of a block a short
+write left behind) -/
+def AF (r : Recv) : Prop := r.acc = r.fed ∨ r.fed.length < r.acc.length
 
 theorem write_AF (r : Recv) (pl : List UInt8) (h : AF r) : AF (r.write pl) := by
-  rcases Recv.write_cases r pl with ⟨h1, h2⟩ | ⟨w, hw, h1, h2⟩
-  · unfold AF; rw [h1, h2]; exact h
+  rcases Recv.write_cases r pl with ⟨h1, h2, _⟩ | ⟨w, hw, h1, h2, _⟩
   · unfold AF; rw [h1, h2]
-    by_cases hfull : w = pl.length
-    · rcases h with h | h
-      · left; rw [h, hfull, List.take_length]
-      · right; simp only [List.length_append, List.length_take]; omega
-    · right
-      have : r.acc.length ≤ r.fed.length := by
-        rcases h with h | h
-        · rw [h]; exact Nat.le_refl _
-        · omega
-      simp only [List.length_append, List.length_take]; omega
+    rcases h with h | h
+    · left; rw [h]
+    · right; simp only [List.length_append]; omega
+  · unfold AF; rw [h1, h2]
+    rcases h with h | h
+    · by_cases hz : (pl.take w).length = 0
+      · left; rw [List.eq_nil_of_length_eq_zero hz, List.append_nil]; exact h
+      · right; rw [h, List.length_append]; omega
+    · right; rw [List.length_append]; omega
 
 theorem recv_AF (H : List UInt8 → List UInt8) (r : Recv) (p : Stanza) (h : AF r) : AF (recv H r p).1 := by
   unfold recv
@@ -337,6 +383,9 @@ theorem recv_AF (H : List UInt8 → List UInt8) (r : Recv) (p : Stanza) (h : AF 
     · split
       · exact h
       · simpa [AF, Recv.acc, Recv.fed] using h
+
+theorem terminate_AF (r : Recv) (c : JError) (h : AF r) : AF (r.terminate c) := by
+  simpa [AF] using h
 
 /-- with a device that takes everything the two are always equal -/
 def AFU (r : Recv) : Prop := r.dev = .unlimited ∧ r.acc = r.fed
@@ -387,7 +436,7 @@ def RInv (data : List UInt8) (bs B : Nat) (r : Recv) : Prop :=
   (B = 65536 → r.dev = .unlimited) ∧
   ((∃ e, e ≤ B ∧ r.expected = UInt16.ofNat e ∧
       (r.acc = data.take (e * bs) ∨ (B < 65536 ∧ r.acc.length < (data.take (e * bs)).length))) ∨
-   (data ≠ [] ∧ data.length < r.acc.length))
+   (r.dev = .unlimited ∧ data ≠ [] ∧ data.length < r.acc.length))
 
 @[simp] theorem Send.terminate_rest (s : Send) (c : JError) : (s.terminate c).rest = s.rest := by
   unfold Send.terminate; split <;> rfl
@@ -495,7 +544,7 @@ theorem recv_RInv (H : List UInt8 → List UInt8) (data : List UInt8) (bs B : Na
             have := congrArg List.length (List.append_cancel_left this)
             rw [List.length_take] at this
             omega
-          rcases h with ⟨e, he, hexp, hJ⟩ | ⟨hd, hover⟩
+          rcases h with ⟨e, he, hexp, hJ⟩ | ⟨hu2, hd, hover⟩
           · by_cases he' : e < B
             · -- the expected block arrives
               have hne' : n = e := ofNat_inj_of_lt n e (by omega) (by omega) (by rw [← hn, hseq, hexp])
@@ -525,7 +574,7 @@ theorem recv_RInv (H : List UInt8 → List UInt8) (data : List UInt8) (bs B : Na
               by_cases hb : B = 65536
               · -- … and the counter has wrapped: a replayed block is taken, the device now holds more than the file
                 right
-                refine ⟨hdne, ?_⟩
+                refine ⟨by simpa using hdev hb, hdne, ?_⟩
                 rcases hJ with hJ | ⟨hlt, _⟩
                 · rw [hacc'', hJ, heB, List.take_of_length_le hlen, hfullw hb, List.take_length, List.length_append]
                   omega
@@ -534,7 +583,7 @@ theorem recv_RInv (H : List UInt8 → List UInt8) (data : List UInt8) (bs B : Na
                 have := ofNat_inj_of_lt n B (by omega) (by omega) (by rw [← hn, hseq, hexp, heB])
                 omega
           · right
-            refine ⟨hd, ?_⟩
+            refine ⟨by simpa using hu2, hd, ?_⟩
             rw [hacc'', List.length_append]; omega
     · split
       · exact h
@@ -555,10 +604,19 @@ theorem inv_init (dev : Dev) (bsS bsR size B : Nat) (hash : Option (List UInt8))
   subst hq
   exact ⟨rfl, rfl, trivial⟩
 
+theorem terminate_RInv (data : List UInt8) (bs B : Nat) (r : Recv) (c : JError) (h : RInv data bs B r) :
+    RInv data bs B (r.terminate c) := by
+  simpa [RInv] using h
+
+theorem terminate_SInv (data : List UInt8) (bs : Nat) (s : Send) (c : JError) (h : SInv data bs s) :
+    SInv data bs (s.terminate c) := by
+  simpa [SInv] using h
+
 theorem inv_run (H : List UInt8 → List UInt8) (data : List UInt8) (bs B : Nat) (hB : B ≤ 65536) (hlen : data.length ≤ B * bs)
     (ops : List Op) (st : St)
     (hb : ∀ op ∈ ops, op.benign) (h : Inv data bs B st) : Inv data bs B (run H st ops).1 :=
-  tri_run H (recv_RInv H data bs B hB hlen) (sender_SInv data bs) (genuine_close data bs) ops st hb h
+  tri_run H (recv_RInv H data bs B hB hlen) (sender_SInv data bs) (genuine_close data bs)
+    (fun r h => terminate_RInv data bs B r _ h) (fun s h => terminate_SInv data bs s _ h) ops st hb h
 
 theorem checked_init (H : List UInt8 → List UInt8) (dev : Dev) (bsS bsR size : Nat) (hash : Option (List UInt8)) (data : List UInt8) :
     Checked H (initDev dev bsS bsR size hash data).r := by
@@ -566,23 +624,29 @@ theorem checked_init (H : List UInt8 → List UInt8) (dev : Dev) (bsS bsR size :
 
 /-- receiver-side conclusion shared by the "identical bytes" theorems -/
 theorem rinv_success_identical (H : List UInt8 → List UInt8) (data : List UInt8) (bs B : Nat) (r : Recv)
-    (hsize : r.size = data.length) (hi : RInv data bs B r) (hc : Checked H r) (hs : r.success) : r.acc = data := by
+    (hsize : r.size = data.length) (hi : RInv data bs B r) (haf : AF r) (hu : r.dev = .unlimited → r.acc = r.fed)
+    (hc : Checked H r) (hs : r.success) : r.acc = data := by
   have hck := (checkFails_false_iff H r).1 (hc hs.1 hs.2)
-  rcases hi.2 with ⟨e, _, _, hJ⟩ | ⟨hd, hover⟩
+  rcases hi.2 with ⟨e, _, _, hJ⟩ | ⟨hu2, hd, hover⟩
   · by_cases hd : data.length = 0
     · have : data = [] := List.eq_nil_of_length_eq_zero hd
       subst this
       rcases hJ with hJ | ⟨_, hJ⟩
       · simpa using hJ
       · simp at hJ
-    · have hl : r.acc.length = data.length := by rw [← hsize]; exact hck.1 (by omega)
+    · have hl : r.fed.length = data.length := by rw [← hsize]; exact hck.1 (by omega)
+      have hge : data.length ≤ r.acc.length := by
+        rcases haf with h | h
+        · rw [h]; omega
+        · omega
       rcases hJ with hJ | ⟨_, hJ⟩
-      · rw [hJ] at hl ⊢
-        rw [List.length_take] at hl
+      · rw [hJ] at hge ⊢
+        rw [List.length_take] at hge
         exact List.take_of_length_le (by omega)
       · rw [List.length_take] at hJ; omega
   · have hpos : 0 < data.length := List.length_pos_iff.mpr hd
-    have hl : r.acc.length = data.length := by rw [← hsize]; exact hck.1 (by omega)
+    have hl : r.fed.length = data.length := by rw [← hsize]; exact hck.1 (by omega)
+    rw [hu hu2] at hover
     omega
 
 end Qx.C19
@@ -767,7 +831,7 @@ def SD (data : List UInt8) (bs e : Nat) (s : Send) : Prop :=
 
 /-- the receiver waits for block `e`, holds fewer bytes than announced and has not reported success -/
 def RD (len e : Nat) (r : Recv) : Prop :=
-  r.expected = UInt16.ofNat e ∧ r.size = len ∧ r.acc.length < len ∧ ¬ r.success
+  r.expected = UInt16.ofNat e ∧ r.size = len ∧ r.fed.length < len ∧ ¬ r.success
 
 theorem sender_SD (data : List UInt8) (bs e : Nat) (hlen : data.length ≤ 65536 * bs) (s : Send) (rep : Reply)
     (h : SD data bs e s) : SD data bs e (sender s rep).1 ∧ ∀ p, (sender s rep).2 = some p → Late e p := by
@@ -828,6 +892,18 @@ theorem recv_RD (H : List UInt8 → List UInt8) (len e : Nat) (r : Recv) (p : St
       · exact ⟨h1, h2, h3, h4⟩
       · exact ⟨h1, h2, h3, by simp [Recv.success]⟩
 
+theorem terminate_RD (len e : Nat) (r : Recv) (h : RD len e r) : RD len e (r.terminate .protocol) := by
+  obtain ⟨h1, h2, h3, h4⟩ := h
+  refine ⟨by simpa using h1, by simpa using h2, by simpa using h3, ?_⟩
+  unfold Recv.terminate
+  split
+  · exact h4
+  · simp [Recv.success]
+
+theorem terminate_SD (data : List UInt8) (bs e : Nat) (s : Send) (c : JError) (h : SD data bs e s) :
+    SD data bs e (s.terminate c) := by
+  simpa [SD] using h
+
 theorem late_close (e : Nat) : Late e { id := 0, sender := 0, sid := 0, kind := .close } := ⟨rfl, rfl, trivial⟩
 
 abbrev Doomed (data : List UInt8) (bs e : Nat) : St → Prop := Tri (SD data bs e) (RD data.length e) (Late e)
@@ -835,7 +911,8 @@ abbrev Doomed (data : List UInt8) (bs e : Nat) : St → Prop := Tri (SD data bs 
 theorem doomed_never_success (H : List UInt8 → List UInt8) (data : List UInt8) (bs e : Nat)
     (hlen : data.length ≤ 65536 * bs) (st : St) (h : Doomed data bs e st)
     (cont : List Op) (hb : ∀ op ∈ cont, op.benign) : ¬ (run H st cont).1.r.success :=
-  (tri_run H (recv_RD H data.length e) (sender_SD data bs e hlen) (late_close e) cont st hb h).r.2.2.2
+  (tri_run H (recv_RD H data.length e) (sender_SD data bs e hlen) (late_close e) (terminate_RD data.length e)
+    (fun s h => terminate_SD data bs e s _ h) cont st hb h).r.2.2.2
 
 /-! ### after the stream was cut short the job stays finished with an error -/
 
@@ -879,7 +956,8 @@ theorem sender_notOpen (s : Send) (rep : Reply) : True ∧ ∀ p, (sender s rep)
 theorem closed_never_success (H : List UInt8 → List UInt8) (st : St)
     (h : Tri (fun _ => True) RF NotOpen st) (cont : List Op) (hb : ∀ op ∈ cont, op.benign) :
     ¬ (run H st cont).1.r.success :=
-  (tri_run H (recv_RF H) (fun s rep _ => sender_notOpen s rep) ⟨rfl, rfl, by simp⟩ cont st hb h).r.2
+  (tri_run H (recv_RF H) (fun s rep _ => sender_notOpen s rep) ⟨rfl, rfl, by simp⟩
+    (fun r h => by unfold Recv.terminate; simp [h.1]; exact h) (fun _ _ => trivial) cont st hb h).r.2
 
 end Qx.C19
 namespace Qx.C19
@@ -891,14 +969,14 @@ set_option linter.unusedSimpArgs false
 variable (H : List UInt8 → List UInt8) (bsS bsR : Nat) (hash : Option (List UInt8)) (data : List UInt8) (j : Nat)
 
 theorem atBlock_acc_length (size : Nat) (hblk : j * bsS < data.length) :
-    (atBlock bsS bsR size hash data j).r.acc.length = j * bsS := by
-  simp [atBlock, Recv.acc]; omega
+    (atBlock bsS bsR size hash data j).r.fed.length = j * bsS := by
+  simp [atBlock, Recv.fed]; omega
 
 /-- with the pending block taken out, the receiver waits for block `j` and the sender is already past it -/
 theorem atBlock_cleared_doomed (hblk : j * bsS < data.length) :
     Doomed data bsS j { atBlock bsS bsR data.length hash data j with pending := none } := by
   refine ⟨⟨rfl, j + 1, rfl, rfl, by omega⟩, ⟨rfl, rfl, ?_, by simp [atBlock, Recv.success]⟩, by simp⟩
-  show (atBlock bsS bsR data.length hash data j).r.acc.length < data.length
+  show (atBlock bsS bsR data.length hash data j).r.fed.length < data.length
   rw [atBlock_acc_length bsS bsR hash data j _ hblk]; exact hblk
 
 theorem tri_of_eq {SP : Send → Prop} {RP : Recv → Prop} {G : Stanza → Prop} {a b : St} (h : Tri SP RP G a) (e : b = a) :
@@ -906,21 +984,24 @@ theorem tri_of_eq {SP : Send → Prop} {RP : Recv → Prop} {G : Stanza → Prop
 
 theorem drop_doomed (hlen : data.length ≤ 65536 * bsS) (hblk : j * bsS < data.length) :
     Doomed data bsS j (step H (atBlock bsS bsR data.length hash data j) .drop).1 := by
-  have h := tri_feed H (recv_RD H data.length j) (sender_SD data bsS j hlen) (late_close j) _
+  have h := tri_feed H (recv_RD H data.length j) (sender_SD data bsS j hlen) (late_close j) (terminate_RD data.length j)
+    (fun s h => terminate_SD data bsS j s _ h) _
     (ack { id := j + 2, sender := 0, sid := 0, kind := .data (UInt16.ofNat j) ((data.drop (j * bsS)).take bsS) })
     (atBlock_cleared_doomed bsS bsR hash data j hblk)
   exact tri_of_eq h (by simp [step, atBlock])
 
 theorem wrongSid_doomed (hlen : data.length ≤ 65536 * bsS) (hblk : j * bsS < data.length) :
     Doomed data bsS j (step H (atBlock bsS bsR data.length hash data j) .wrongSid).1 := by
-  have h := tri_deliverStanza H (recv_RD H data.length j) (sender_SD data bsS j hlen) (late_close j) _
+  have h := tri_deliverStanza H (recv_RD H data.length j) (sender_SD data bsS j hlen) (late_close j) (terminate_RD data.length j)
+    (fun s h => terminate_SD data bsS j s _ h) _
     { id := j + 2, sender := 0, sid := 1, kind := .data (UInt16.ofNat j) ((data.drop (j * bsS)).take bsS) }
     (atBlock_cleared_doomed bsS bsR hash data j hblk) (Or.inr (Or.inr (by simp)))
   exact tri_of_eq h (by simp [step, atBlock])
 
 theorem wrongSender_doomed (hlen : data.length ≤ 65536 * bsS) (hblk : j * bsS < data.length) :
     Doomed data bsS j (step H (atBlock bsS bsR data.length hash data j) .wrongSender).1 := by
-  have h := tri_deliverStanza H (recv_RD H data.length j) (sender_SD data bsS j hlen) (late_close j) _
+  have h := tri_deliverStanza H (recv_RD H data.length j) (sender_SD data bsS j hlen) (late_close j) (terminate_RD data.length j)
+    (fun s h => terminate_SD data bsS j s _ h) _
     { id := j + 2, sender := 1, sid := 0, kind := .data (UInt16.ofNat j) ((data.drop (j * bsS)).take bsS) }
     (atBlock_cleared_doomed bsS bsR hash data j hblk) (Or.inr (Or.inl (by simp)))
   exact tri_of_eq h (by simp [step, atBlock])
@@ -928,9 +1009,9 @@ theorem wrongSender_doomed (hlen : data.length ≤ 65536 * bsS) (hblk : j * bsS 
 
 theorem earlyClose_closed (hblk : j * bsS < data.length) :
     Tri (fun _ => True) RF NotOpen (step H (atBlock bsS bsR data.length hash data j) .earlyClose).1 := by
-  have hcf : ∀ r : Recv, r.size = data.length → r.accRev = (data.take (j * bsS)).reverse → r.checkFails H = true := by
+  have hcf : ∀ r : Recv, r.size = data.length → r.fedRev = (data.take (j * bsS)).reverse → r.checkFails H = true := by
     intro r e1 e3
-    simp [Recv.checkFails, Recv.acc, e1, e3]
+    simp [Recv.checkFails, Recv.fed, e1, e3]
     left
     refine ⟨?_, by omega⟩
     intro hd; simp [hd] at hblk
@@ -956,7 +1037,7 @@ theorem swap_doomed (hb : 0 < bsS) (hlen : data.length ≤ 65536 * bsS) (hblk : 
     · refine ⟨?_, ?_, ?_, ?_⟩
       · simp [step, deliverStanza, atBlock, toR, feed, recv, Recv.write_unlimited_eq, sender, ack, h2]
       · simp [step, deliverStanza, atBlock, toR, feed, recv, Recv.write_unlimited_eq, sender, ack, h2]
-      · simp [step, deliverStanza, atBlock, toR, feed, recv, Recv.write_unlimited_eq, sender, ack, h2, Recv.acc]
+      · simp [step, deliverStanza, atBlock, toR, feed, recv, Recv.write_unlimited_eq, sender, ack, h2, Recv.fed]
         have key : ∀ x len bs : Nat, x + bs < len → min x len + min bs (len - x) < len := by
           intro x len bs h; omega
         exact key (j * bsS) data.length bsS (by rw [← Nat.succ_mul]; exact hmore)
@@ -967,9 +1048,9 @@ theorem swap_doomed (hb : 0 < bsS) (hlen : data.length ≤ 65536 * bsS) (hblk : 
       exact ⟨rfl, rfl, trivial⟩
   · -- the held block was the last one: the sender closes, the receiver's check fails, the held block comes too late
     have h2 : List.drop ((j + 1) * bsS) data = [] := List.drop_of_length_le (by omega)
-    have hcf : ∀ r : Recv, r.size = data.length → r.accRev = (data.take (j * bsS)).reverse → r.checkFails H = true := by
+    have hcf : ∀ r : Recv, r.size = data.length → r.fedRev = (data.take (j * bsS)).reverse → r.checkFails H = true := by
       intro r e1 e3
-      simp [Recv.checkFails, Recv.acc, e1, e3]
+      simp [Recv.checkFails, Recv.fed, e1, e3]
       left
       refine ⟨?_, by omega⟩
       intro hd; simp [hd] at hblk
@@ -981,7 +1062,7 @@ theorem swap_doomed (hb : 0 < bsS) (hlen : data.length ≤ 65536 * bsS) (hblk : 
     · refine ⟨?_, ?_, ?_, ?_⟩
       · simp [step, deliverStanza, atBlock, toR, feed, recv, Recv.write_unlimited_eq, sender, ack, h2, Send.terminate, Recv.checkData, hcf, Recv.terminate]
       · simp [step, deliverStanza, atBlock, toR, feed, recv, Recv.write_unlimited_eq, sender, ack, h2, Send.terminate, Recv.checkData, hcf, Recv.terminate]
-      · simp [step, deliverStanza, atBlock, toR, feed, recv, Recv.write_unlimited_eq, sender, ack, h2, Send.terminate, Recv.checkData, hcf, Recv.terminate, Recv.acc]
+      · simp [step, deliverStanza, atBlock, toR, feed, recv, Recv.write_unlimited_eq, sender, ack, h2, Send.terminate, Recv.checkData, hcf, Recv.terminate, Recv.fed]
         omega
       · simp [step, deliverStanza, atBlock, toR, feed, recv, Recv.write_unlimited_eq, sender, ack, h2, Send.terminate, Recv.checkData, hcf, Recv.terminate, Recv.success]
     · intro q hq
@@ -1038,7 +1119,7 @@ theorem recv_acc_prefix (H : List UInt8 → List UInt8) (X : List UInt8) (r : Re
 
 theorem run_acc_prefix (H : List UInt8 → List UInt8) (X : List UInt8) (ops : List Op) (st : St)
     (h : ∃ t, st.r.acc = X ++ t) : ∃ t, (run H st ops).1.r.acc = X ++ t :=
-  run_r_inv H (fun r => ∃ t, r.acc = X ++ t) (recv_acc_prefix H X) ops st h
+  run_r_inv H (fun r => ∃ t, r.acc = X ++ t) (recv_acc_prefix H X) (fun r h => by simpa using h) ops st h
 
 theorem altered_prefix_ne (data : List UInt8) (n bs : Nat) (pl' t : List UInt8)
     (hlen : pl'.length = ((data.drop n).take bs).length) (hne : pl' ≠ (data.drop n).take bs) :
@@ -1093,6 +1174,12 @@ theorem checked_checkData (H : List UInt8 → List UInt8) (r : Recv) (h : Checke
       intro _ _
       simpa [Recv.checkFails, Recv.acc, Recv.fed] using hck
 
+theorem write_checked (H : List UInt8 → List UInt8) (r : Recv) (pl : List UInt8) (ht : r.state = .transfer) :
+    Checked H (r.write pl) := by
+  rcases Recv.write_state_cases r pl ht with ⟨h1, _⟩ | ⟨_, h2⟩
+  · intro hf; rw [h1] at hf; cases hf
+  · intro _ he; rw [h2] at he; cases he
+
 theorem sstep_checked (H : List UInt8 → List UInt8) (r : Recv) (op : SOp) (h : Checked H r) : Checked H (sstep H r op) := by
   cases op with
   | chunk bytes =>
@@ -1102,9 +1189,8 @@ theorem sstep_checked (H : List UInt8 → List UInt8) (r : Recv) (op : SOp) (h :
     · rename_i hst
       simp only [ne_eq, Decidable.not_not] at hst
       split
-      · apply checked_checkData
-        intro hf; simp [hst] at hf
-      · intro hf; simp [hst] at hf
+      · exact checked_checkData H _ (write_checked H r bytes hst)
+      · exact write_checked H r bytes hst
   | disconnect =>
     simp only [sstep]
     split
@@ -1116,26 +1202,51 @@ theorem srun_checked (H : List UInt8 → List UInt8) (ops : List SOp) (r : Recv)
   | nil => exact h
   | cons op ops ih => exact ih _ (sstep_checked H r op h)
 
-theorem sstep_AF (H : List UInt8 → List UInt8) (r : Recv) (op : SOp) (h : AF r) : AF (sstep H r op) := by
+/-- on the byte-stream path (no `<open/>` that could revive a job): the device holds exactly what counter and hash have
+seen, or the job has ended with `FileAccessError` -/
+def AS (r : Recv) : Prop := r.acc = r.fed ∨ (r.state = .finished ∧ r.error = .access)
+
+theorem checkData_AS (H : List UInt8 → List UInt8) (r : Recv) (h : AS r) : AS (r.checkData H) := by
+  by_cases hf : r.state = .finished
+  · have : r.checkData H = r := by unfold Recv.checkData Recv.terminate; simp [hf]
+    rw [this]; exact h
+  · rcases h with h | ⟨h1, _⟩
+    · left; simpa using h
+    · exact absurd h1 hf
+
+theorem write_AS (r : Recv) (pl : List UInt8) (ht : r.state = .transfer) (h : AS r) : AS (r.write pl) := by
+  have h : r.acc = r.fed := by
+    rcases h with h | ⟨h1, _⟩
+    · exact h
+    · rw [ht] at h1; cases h1
+  rcases Recv.write_cases r pl with ⟨e1, e2, _⟩ | ⟨w, _, _, _, r0, s1, _, e3⟩
+  · left; rw [e1, e2, h]
+  · right
+    rw [e3]
+    unfold Recv.terminate
+    simp [s1, ht]
+
+theorem sstep_AS (H : List UInt8 → List UInt8) (r : Recv) (op : SOp) (h : AS r) : AS (sstep H r op) := by
   cases op with
   | chunk bytes =>
     simp only [sstep]
     split
     · exact h
-    · split
-      · have := write_AF r bytes h
-        simpa [AF] using this
-      · exact write_AF r bytes h
+    · rename_i hst
+      simp only [ne_eq, Decidable.not_not] at hst
+      split
+      · exact checkData_AS H _ (write_AS r bytes hst h)
+      · exact write_AS r bytes hst h
   | disconnect =>
     simp only [sstep]
     split
     · exact h
-    · simpa [AF] using h
+    · exact checkData_AS H r h
 
-theorem srun_AF (H : List UInt8 → List UInt8) (ops : List SOp) (r : Recv) (h : AF r) : AF (srun H r ops) := by
+theorem srun_AS (H : List UInt8 → List UInt8) (ops : List SOp) (r : Recv) (h : AS r) : AS (srun H r ops) := by
   induction ops generalizing r with
   | nil => exact h
-  | cons op ops ih => exact ih _ (sstep_AF H r op h)
+  | cons op ops ih => exact ih _ (sstep_AS H r op h)
 
 theorem sstep_AFU (H : List UInt8 → List UInt8) (r : Recv) (op : SOp) (h : AFU r) : AFU (sstep H r op) := by
   have hw : ∀ b, AFU (r.write b) := by
@@ -1183,8 +1294,18 @@ def sbytes : List SOp → Nat
   | .chunk b :: ops => b.length + sbytes ops
   | .disconnect :: ops => sbytes ops
 
+theorem write_fed_le (r : Recv) (pl : List UInt8) : (r.write pl).fed.length ≤ r.fed.length + pl.length := by
+  rcases Recv.write_cases r pl with ⟨_, e2, _⟩ | ⟨w, _, _, e2, _⟩
+  · rw [e2, List.length_append]; omega
+  · rw [e2]; omega
+
+theorem write_not_success (r : Recv) (pl : List UInt8) (ht : r.state = .transfer) : ¬ (r.write pl).success := by
+  rcases Recv.write_state_cases r pl ht with ⟨h1, _⟩ | ⟨_, h2⟩
+  · intro hs; have := hs.1; rw [h1] at this; cases this
+  · intro hs; have := hs.2; rw [h2] at this; cases this
+
 theorem srun_short (H : List UInt8 → List UInt8) (ops : List SOp) (r : Recv)
-    (hn : ¬ r.success) (hlt : r.acc.length + sbytes ops < r.size) : ¬ (srun H r ops).success := by
+    (hn : ¬ r.success) (hlt : r.fed.length + sbytes ops < r.size) : ¬ (srun H r ops).success := by
   induction ops generalizing r with
   | nil => exact hn
   | cons op ops ih =>
@@ -1196,17 +1317,13 @@ theorem srun_short (H : List UInt8 → List UInt8) (ops : List SOp) (r : Recv)
       · exact ih r hn (by omega)
       · rename_i hst
         simp only [ne_eq, Decidable.not_not] at hst
-        obtain ⟨w, hw, hacc⟩ := Recv.write_acc r b
-        have hlen : (r.write b).acc.length ≤ r.acc.length + b.length := by
-          rw [hacc, List.length_append, List.length_take]; omega
+        have hlen := write_fed_le r b
         have hsz : (r.write b).size = r.size := Recv.write_size r b
         split
         · rename_i hge
           have hge2 := hge.2
           omega
-        · apply ih
-          · simp [Recv.success, hst]
-          · omega
+        · exact ih _ (write_not_success r b hst) (by omega)
     | disconnect =>
       simp only [srun, sstep]
       simp only [sbytes] at hlt
@@ -1220,7 +1337,7 @@ theorem srun_short (H : List UInt8 → List UInt8) (ops : List SOp) (r : Recv)
 
 theorem sstep_chunk_transfer (H : List UInt8 → List UInt8) (r : Recv) (c : List UInt8) (hst : r.state = .transfer) :
     sstep H r (.chunk c) =
-      if r.size ≠ 0 ∧ (r.write c).acc.length ≥ r.size then (r.write c).checkData H else r.write c := by
+      if r.size ≠ 0 ∧ (r.write c).fed.length ≥ r.size then (r.write c).checkData H else r.write c := by
   simp [sstep, hst]
 
 theorem check_pass (H : List UInt8 → List UInt8) (data : List UInt8) (r' : Recv)
@@ -1229,7 +1346,7 @@ theorem check_pass (H : List UInt8 → List UInt8) (data : List UInt8) (r' : Rec
     (r'.checkData H).success ∧ (r'.checkData H).acc = data := by
   have hcf : r'.checkFails H = false := by
     rw [checkFails_false_iff]
-    exact ⟨fun _ => by rw [e3, e1], fun h hh => by rw [e5]; exact e2 h hh⟩
+    exact ⟨fun _ => by rw [e5, e1], fun h hh => by rw [e5]; exact e2 h hh⟩
   refine ⟨?_, by simpa using e3⟩
   unfold Recv.checkData Recv.terminate
   simp [hcf, e4, Recv.success]
@@ -1253,23 +1370,24 @@ theorem srun_honest (H : List UInt8 → List UInt8) (data : List UInt8) (cs : Li
     · rw [sstep_chunk_transfer H r c hst]
       simp only [List.flatten_cons] at hacc
       have hw := Recv.write_unlimited r c hu.1
+      have hws := Recv.write_unlimited_state r c hu.1
       have hu' : AFU (r.write c) := ⟨by simpa using hu.1, by rw [hw.1, hw.2, hu.2]⟩
       split
       · rename_i hge
         have hlen := congrArg List.length hacc
         simp only [List.length_append] at hlen
-        have hge2 : r.size ≤ (r.write c).acc.length := hge.2
-        rw [hw.1] at hge2
+        have hge2 : r.size ≤ (r.write c).fed.length := hge.2
+        rw [hw.2, ← hu.2] at hge2
         simp only [List.length_append] at hge2
         have hfl : cs.flatten = [] := by
           apply List.eq_nil_of_length_eq_zero
           omega
         have hfull : r.acc ++ c = data := by simpa [hfl, List.append_assoc] using hacc
         have hp := check_pass H data (r.write c) (by simpa using hsize) (by simpa using hhash) (by rw [hw.1, hfull])
-          (by rw [hw.2, ← hu.2, hfull]) (by simpa using hst)
+          (by rw [hw.2, ← hu.2, hfull]) (by rw [hws.1]; exact hst)
         exact ih _ (by simpa using hsize) (by simpa using hhash) (by simpa [AFU] using hu') (Or.inr hp)
       · exact ih _ (by simpa using hsize) (by simpa using hhash) hu'
-          (Or.inl ⟨by simpa using hst, by rw [hw.1, List.append_assoc]; exact hacc⟩)
+          (Or.inl ⟨by rw [hws.1]; exact hst, by rw [hw.1, List.append_assoc]; exact hacc⟩)
     · have : sstep H r (.chunk c) = r := by
         simp [sstep, hs.1]
       rw [this]
@@ -1287,28 +1405,59 @@ theorem run_honest_settled (H : List UInt8 → List UInt8) (st : St) (k : Nat)
   obtain ⟨m, rfl⟩ : ∃ m, n = k + m := ⟨n - k, by omega⟩
   rw [honest_add, run_append, run_honest_idle H _ h]
 
-/-- the receiving job only ever ends with `NoError` or `FileCorruptError` -/
-def REok (r : Recv) : Prop := r.error = .none ∨ r.error = .corrupt
+/-- with a device that takes everything and no timer firing, the receiving job only ever ends with `NoError` or
+`FileCorruptError` -/
+def REok (r : Recv) : Prop := r.dev = .unlimited ∧ (r.error = .none ∨ r.error = .corrupt)
 
 theorem recv_REok (H : List UInt8 → List UInt8) (r : Recv) (p : Stanza) (h : REok r) : REok (recv H r p).1 := by
   unfold recv
   split
   · exact h
   · split
-    · unfold Recv.checkData Recv.terminate
-      split <;> split <;> first | exact h | (right; rfl) | (left; rfl)
+    · refine ⟨by simpa using h.1, ?_⟩
+      unfold Recv.checkData Recv.terminate
+      split <;> split <;> first | exact h.2 | (right; rfl) | (left; rfl)
     · split
       · exact h
       · split
         · exact h
-        · simpa [REok] using h
+        · refine ⟨by simpa using h.1, ?_⟩
+          rw [(Recv.write_unlimited_state _ _ (by simpa using h.1)).2]
+          exact h.2
     · split
       · exact h
       · exact h
 
+/-- the same as `run_r_inv` for histories in which no timer fires -/
+theorem run_r_inv_nt (H : List UInt8 → List UInt8) (P : Recv → Prop)
+    (hP : ∀ r p, P r → P (recv H r p).1) (ops : List Op) (hnt : ∀ op ∈ ops, op ≠ .timeout)
+    (st : St) (h : P st.r) : P (run H st ops).1.r := by
+  induction ops generalizing st with
+  | nil => exact h
+  | cons op ops ih =>
+    apply ih (fun o ho => hnt o (List.mem_cons_of_mem _ ho))
+    have hne := hnt op List.mem_cons_self
+    cases op <;> simp only [step, deliverStanza]
+    case deliver => split <;> simp_all
+    case drop => split <;> simp_all
+    case dup => split <;> simp_all
+    case swap =>
+      split
+      · exact h
+      · split <;> simp_all
+    case flip => split <;> simp_all
+    case earlyClose => simp_all
+    case wrongSid => split <;> simp_all
+    case wrongSender => split <;> simp_all
+    case inject => simp_all
+    case lose => exact h
+    case injectReply => simp_all
+    case peerClose => exact h
+    case timeout => exact absurd rfl hne
+
 /-- sender and receiver are in step: the channel holds exactly the block the receiver waits for -/
 def Sync (st : St) : Prop :=
-  st.r.state = .transfer ∧ st.s.state = .transfer ∧ st.s.seq = st.r.expected + 1 ∧
+  st.r.dev = .unlimited ∧ st.r.state = .transfer ∧ st.s.state = .transfer ∧ st.s.seq = st.r.expected + 1 ∧
   ∃ pl, st.pending = some { id := st.s.requestId, sender := 0, sid := 0, kind := .data st.r.expected pl }
 
 /-- the sender is done (for whatever reason), its `<close/>` is in the channel, the receiver still waits -/
@@ -1329,19 +1478,21 @@ theorem closing_step (H : List UInt8 → List UInt8) (st : St) (h : Closing st) 
 theorem sync_step (H : List UInt8 → List UInt8) (st : St) (hb : 0 < st.s.blockSize) (h : Sync st) :
     (Sync (step H st .deliver).1 ∧ (step H st .deliver).1.s.rest.length < st.s.rest.length ∧
       (step H st .deliver).1.s.blockSize = st.s.blockSize) ∨ Closing (step H st .deliver).1 := by
-  obtain ⟨h1, h2, h3, pl, h4⟩ := h
+  obtain ⟨hu, h1, h2, h3, pl, h4⟩ := h
+  have hwu : ∀ r : Recv, r.dev = st.r.dev → r.write pl = { r with accRev := pl.reverse ++ r.accRev, fedRev := pl.reverse ++ r.fedRev } :=
+    fun r hr => Recv.write_unlimited_eq r pl (by rw [hr]; exact hu)
   by_cases hmore : st.s.rest.take st.s.blockSize = []
   · right
-    simp [step, h4, deliverStanza, toR, feed, recv, h1, sender, h2, hmore, Closing, Send.terminate]
+    simp [step, h4, deliverStanza, toR, feed, recv, h1, sender, h2, hmore, Closing, Send.terminate, hwu]
   · left
     have hlen : (st.s.rest.drop st.s.blockSize).length < st.s.rest.length := by
       have : st.s.rest ≠ [] := by intro he; simp [he] at hmore
       have := List.length_pos_iff.mpr this
       rw [List.length_drop]; omega
     refine ⟨?_, ?_, ?_⟩
-    · simp [step, h4, deliverStanza, toR, feed, recv, h1, sender, h2, hmore, Sync, h3]
-    · simpa [step, h4, deliverStanza, toR, feed, recv, h1, sender, h2, hmore] using hlen
-    · simp [step, h4, deliverStanza, toR, feed, recv, h1, sender, h2, hmore]
+    · simp [step, h4, deliverStanza, toR, feed, recv, h1, sender, h2, hmore, Sync, h3, hwu, hu]
+    · simpa [step, h4, deliverStanza, toR, feed, recv, h1, sender, h2, hmore, hwu] using hlen
+    · simp [step, h4, deliverStanza, toR, feed, recv, h1, sender, h2, hmore, hwu]
 
 theorem closing_finishes (H : List UInt8 → List UInt8) (st : St) (h : Closing st) (n : Nat) (hn : 1 ≤ n) :
     (run H st (honest n)).1.r.state = .finished ∧ (run H st (honest n)).1.pending = none ∧
@@ -1388,8 +1539,8 @@ def Reported (st : St) : Prop :=
   st.r.state = .finished ∧ st.r.error = .corrupt ∧ st.pending = none ∧ st.s.state = .finished
 
 theorem short_checkFails (hblk : j * bsS < data.length) (r : Recv) (e1 : r.size = data.length)
-    (e3 : r.accRev = (data.take (j * bsS)).reverse) : r.checkFails H = true := by
-  simp [Recv.checkFails, Recv.acc, e1, e3]
+    (e3 : r.fedRev = (data.take (j * bsS)).reverse) : r.checkFails H = true := by
+  simp [Recv.checkFails, Recv.fed, e1, e3]
   left
   refine ⟨?_, by omega⟩
   intro hd; simp [hd] at hblk
@@ -1422,9 +1573,9 @@ theorem swap_reports (hb : 0 < bsS) (hblk : j * bsS < data.length) :
   by_cases hmore : (j + 1) * bsS < data.length
   · have h2 := take_drop_ne_nil data ((j + 1) * bsS) bsS hmore hb
     have hcf : ∀ r : Recv, r.size = data.length →
-        r.accRev = ((data.drop (j * bsS)).take bsS).reverse ++ (data.take (j * bsS)).reverse → r.checkFails H = true := by
+        r.fedRev = ((data.drop (j * bsS)).take bsS).reverse ++ (data.take (j * bsS)).reverse → r.checkFails H = true := by
       intro r e1 e3
-      simp [Recv.checkFails, Recv.acc, e1, e3]
+      simp [Recv.checkFails, Recv.fed, e1, e3]
       left
       refine ⟨?_, ?_⟩
       · intro hd; simp [hd] at hblk
@@ -1480,7 +1631,8 @@ theorem lose_close_reports (H : List UInt8 → List UInt8) (bsS bsR : Nat) (hash
 /-! ### the sending job alone -/
 
 theorem step_s_inv (H : List UInt8 → List UInt8) (P : Send → Prop)
-    (hP : ∀ s rep, P s → P (sender s rep).1) (st : St) (op : Op) (h : P st.s) : P (step H st op).1.s := by
+    (hP : ∀ s rep, P s → P (sender s rep).1) (hT : ∀ s, P s → P (s.terminate .protocol))
+    (st : St) (op : Op) (h : P st.s) : P (step H st op).1.s := by
   cases op <;> simp only [step, deliverStanza]
   case deliver => split <;> simp_all
   case drop => split <;> simp_all
@@ -1499,12 +1651,17 @@ theorem step_s_inv (H : List UInt8 → List UInt8) (P : Send → Prop)
   case lose => exact h
   case injectReply => simp_all
   case peerClose => exact h
+  case timeout =>
+    split
+    · exact hT _ h
+    · exact h
 
 theorem run_s_inv (H : List UInt8 → List UInt8) (P : Send → Prop)
-    (hP : ∀ s rep, P s → P (sender s rep).1) (ops : List Op) (st : St) (h : P st.s) : P (run H st ops).1.s := by
+    (hP : ∀ s rep, P s → P (sender s rep).1) (hT : ∀ s, P s → P (s.terminate .protocol))
+    (ops : List Op) (st : St) (h : P st.s) : P (run H st ops).1.s := by
   induction ops generalizing st with
   | nil => exact h
-  | cons op ops ih => exact ih _ (step_s_inv H P hP st op h)
+  | cons op ops ih => exact ih _ (step_s_inv H P hP hT st op h)
 
 /-- the sending job reports success only after it has read its device to the end -/
 def SDone (bs : Nat) (s : Send) : Prop :=
@@ -1532,5 +1689,30 @@ theorem sender_SDone (bs : Nat) (s : Send) (rep : Reply) (h : SDone bs s) : SDon
           intro _ he
           unfold Send.terminate at he
           simp [hnf] at he
+
+theorem terminate_SDone (bs : Nat) (s : Send) (h : SDone bs s) : SDone bs (s.terminate .protocol) := by
+  obtain ⟨hb, hd⟩ := h
+  refine ⟨by simpa using hb, ?_⟩
+  unfold Send.terminate
+  split
+  · simpa using hd
+  · intro _ he; simp at he
+
+end Qx.C19
+
+namespace Qx.C19
+
+/-! ### the inactivity timer -/
+
+theorem timeout_of_reported (H : List UInt8 → List UInt8) (st : St) (h : Reported st) : Reported (step H st .timeout).1 := by
+  obtain ⟨h1, h2, h3, h4⟩ := h
+  simp [step, Reported, h1, h2, h3, h4]
+
+theorem timeout_of_waiting (H : List UInt8 → List UInt8) (st : St) (hr : st.r.state = .transfer) (hs : st.s.state = .transfer)
+    (hp : st.pending = none) :
+    (step H st .timeout).1.r.state = .finished ∧ (step H st .timeout).1.r.error = .protocol ∧
+    (step H st .timeout).1.s.state = .finished ∧ (step H st .timeout).1.s.error = .protocol ∧
+    (step H st .timeout).1.pending = none := by
+  simp [step, hr, hs, hp, Recv.terminate, Send.terminate]
 
 end Qx.C19
